@@ -148,12 +148,6 @@ def argsM (g : Globals) : List Expr → List EvalM
   | e :: es => exprM g e :: argsM g es
 end
 
-/-- the annotation of a `let`, when present, differs from the initialiser's type -/
-def letTypeBad (ann : Option ATy) (t : Ty) : Bool :=
-  match ann with
-  | some a => decide (t ≠ a.toTy)
-  | none => false
-
 /-- the internal name of a new `let`: probe from the source name when no value of that name is
 visible, otherwise from the visible value's internal name -/
 def letInnerName (s : St) (name : Name) : Name :=
@@ -234,16 +228,21 @@ def forbidden (rc bc cc : Bool) (s : St) : St :=
   let s := if bc then s.addErr .forbiddenCodeAfterBreakDeprecated wildcard 1 1 else s
   if cc then s.addErr .forbiddenCodeAfterContinueDeprecated wildcard 1 1 else s
 
-/-- prologue of `if_condition` up to and including `set_label(if_begin)` -/
-def ifPrologue (g : Globals) (cond : IfCond) (dup isElse : Bool) (labelEnd : Option Name) (s : St) :
-    Name × Name × St :=
-  let s := if dup then s.addErr .ifElseDuplicated "if-condition".toList 1 0 else s
+/-- the child block and the three label probes of `if_condition` -/
+def ifLabels (labelEnd : Option Name) (s : St) : Name × Name × Name × St :=
   let s := s.enter
   let (lBegin, s) := s.probeLabel "if_begin".toList
   let (lElse, s) := s.probeLabel "if_else".toList
   let (lEnd, s) := match labelEnd with
     | some l => (l, s)
     | none => s.probeLabel "if_end".toList
+  (lBegin, lElse, lEnd, s)
+
+/-- prologue of `if_condition` up to and including `set_label(if_begin)` -/
+def ifPrologue (g : Globals) (cond : IfCond) (dup isElse : Bool) (labelEnd : Option Name) (s : St) :
+    Name × Name × St :=
+  let s := if dup then s.addErr .ifElseDuplicated "if-condition".toList 1 0 else s
+  let (lBegin, lElse, lEnd, s) := ifLabels labelEnd s
   let s := ifCondCalc g cond lBegin lElse lEnd isElse s
   (lElse, lEnd, s.push (.setLabel lBegin))
 
